@@ -250,9 +250,13 @@ def gen_ranges(rng, max_product=40, label=True, runnable=False):
     while True:
         name = pick(rng, list(CODES))
         dname = pick(rng, decoders_for(name, runnable))
+        if dname in SLOW_DECODERS and rng.random() < 0.75:
+            continue                     # its constructor takes 0.1 s: keep it rare
         sizes = [sz for sz in sizes_for(name) if combo_ok(name, sz, dname)]
         if sizes:
             break
+    if dname in SLOW_DECODERS:
+        max_product = min(max_product, 8)
     dim = class_dimension(CODES[name])
     lens = [int(rng.integers(1, 6)) for _ in range(4)]
     while lens[0] * lens[1] * lens[2] * lens[3] > max_product:
@@ -312,8 +316,11 @@ def gen_ranges(rng, max_product=40, label=True, runnable=False):
               'error_rate': distinct_sample(rng, RATES, lens[3])}
     if label and rng.random() < 0.6:
         ranges['label'] = pick(rng, ['exp', 'my run', 'x1'])
-    if rng.random() < 0.2:
+    w = rng.random()
+    if w < 0.2:
         ranges['method'] = {'name': 'direct', 'parameters': {}}
+    elif w < 0.32 and not runnable:
+        ranges['method'] = {'name': 'splitting', 'parameters': {'n_init_runs': int(rng.integers(1, 20))}}
     items = list(ranges.items())
     if rng.random() < 0.3:
         items.reverse()
@@ -478,8 +485,8 @@ def correspondence(ctx):
         except Exception:
             continue
         sims = b._simulations
-        if not sims:
-            continue
+        if not sims or any(hasattr(sim, 'decoders') for sim in sims):
+            continue                     # splitting simulations record other inputs and are not run here
         for sim in sims[:6]:
             for src, via in ((sim._inputs, 'memory'), (json_roundtrip(sim._inputs), 'json')):
                 cd, nd, dd = src['code'], src['error_model'], src['decoder']
@@ -498,7 +505,11 @@ def correspondence(ctx):
         b._output_file = path
         slow = any(sim.decoder.id in SLOW_DECODERS for sim in sims)
         for i, sim in enumerate(sims):
-            quiet(lambda: sim.run(0 if slow else i % 3))
+            try:
+                quiet(lambda: sim.run(0 if slow else i % 3))
+            except Exception as e:  # a decoder that raises while decoding is outside C13
+                ctx.notes.append(f'trial not run ({sim.decoder.id} on {sim.code.id}{tuple(sim.code.size)}): '
+                                 f'{type(e).__name__}')
         b.save_results()
         data = load_json(path)
         order = [int(i) for i in rng.permutation(len(data))]
@@ -555,11 +566,15 @@ def decoder_defaults(dname):
 
 
 def sim_tuple(sim):
-    c, e, d = sim.code, sim.error_model, sim.decoder
+    c, e = sim.code, sim.error_model
+    if hasattr(sim, 'decoders'):          # SplittingSimulation: all rates, largest first
+        d, rate = sim.decoders[0], tuple(float(x) for x in sim.error_rates)
+    else:
+        d, rate = sim.decoder, sim.error_rate
     return repr((('code', c.id, c.params['L_x'], c.params['L_y'], c.params['L_z']),
                  ('noise', e.id, e.params['r_x'], e.params['r_y'], e.params['r_z'], e.params['deformation_name']),
                  ('decoder', d.id, tuple(sorted(d.params.items()))),
-                 sim.error_rate))
+                 rate))
 
 
 def expected_tuples(ranges):
@@ -568,6 +583,13 @@ def expected_tuples(ranges):
     cname, nname, dname = ranges['code']['name'], ranges['error_model']['name'], ranges['decoder']['name']
     dflt = decoder_defaults(dname)
     exp = []
+    if ranges.get('method', {}).get('name') == 'splitting':
+        # one simulation per (code, noise, decoder), each with every requested rate
+        allr = tuple(sorted((float(x) for x in rs), reverse=True))
+        for c, n, d in itertools.product(cs, ns, ds):
+            exp.append(repr((('code',) + expected_code(cname, c), ('noise',) + expected_noise(nname, n),
+                             ('decoder', dname, tuple(sorted({**dflt, **d}.items()))), allr)))
+        return exp
     for c, n, d, r in itertools.product(cs, ns, ds, rs):
         exp.append(repr((('code',) + expected_code(cname, c), ('noise',) + expected_noise(nname, n),
                          ('decoder', dname, tuple(sorted({**dflt, **d}.items()))), r)))
@@ -644,7 +666,10 @@ def check_case(case):
         if kind == 'resume':
             ran = []
             for i, sim in enumerate(sims):
-                quiet(lambda: sim.run((i * 2 + 1) % 3))
+                try:
+                    quiet(lambda: sim.run((i * 2 + 1) % 3))
+                except Exception:      # the decoder itself raised: not an input of C13
+                    return None
                 ran.append((sim.n_results, [bool(x) for x in sim.results['success']],
                             [[int(v) for v in e] for e in sim.results['effective_error']]))
             b.save_results()
@@ -686,7 +711,7 @@ def oracle_cases(ctx, deep):
             spec = {'ranges': [gen_ranges(rng, max_product=10) for _ in range(int(rng.integers(1, 4)))]}
         cases.append({'kind': 'expansion', 'spec': spec})
     for _ in range(12 if deep else 4):
-        spec = {'ranges': gen_ranges(rng, max_product=8)}
+        spec = {'ranges': gen_ranges(rng, max_product=8, runnable=True)}
         cases.append({'kind': 'reinstantiate', 'spec': spec})
         cases.append({'kind': 'resume', 'spec': {'ranges': gen_ranges(rng, max_product=12, runnable=True)}})
     for _ in range(10 if deep else 4):
